@@ -574,7 +574,7 @@ func e10ReplaceShape(c *core.Ctx, r *core.Report, p *packages.Package) {
 						// q = rep(…)
 						for _, s := range is.Body.List {
 							if as, isAs := s.(*ast.AssignStmt); isAs && len(as.Lhs) == 1 && len(as.Rhs) == 1 {
-								if l, isId := as.Lhs[0].(*ast.Ident); isId && l.Name == "q" {
+								if l, isId := as.Lhs[0].(*ast.Ident); isId && isPathPtr(info.TypeOf(l)) {
 									if call, isCall := core.Unparen(as.Rhs[0]).(*ast.CallExpr); isCall {
 										if fid, isFid := call.Fun.(*ast.Ident); isFid && core.ObjOf(info, fid) == params[rep] {
 											ok = true
@@ -599,8 +599,12 @@ func e10ReplaceShape(c *core.Ctx, r *core.Report, p *packages.Package) {
 	// the `if q != nil { … }` block: cut, join q, i = len(p.d), join remainder
 	var blk *ast.IfStmt
 	ast.Inspect(fd.Body, func(n ast.Node) bool {
-		if is, ok := n.(*ast.IfStmt); ok && strings.ReplaceAll(types.ExprString(is.Cond), " ", "") == "q!=nil" {
-			blk = is
+		if is, ok := n.(*ast.IfStmt); ok && core.AlphaMatch("$q!=nil", c.Norm(p, is.Cond)) {
+			if id, isId := core.Unparen(is.Cond.(*ast.BinaryExpr).X).(*ast.Ident); isId {
+				if _, isPath := info.TypeOf(id).(*types.Pointer); isPath {
+					blk = is
+				}
+			}
 		}
 		return true
 	})
@@ -609,26 +613,16 @@ func e10ReplaceShape(c *core.Ctx, r *core.Report, p *packages.Package) {
 		r.Fail("E10.replace-shape", key, c.Pos(fd.Pos()), "no `if q != nil` splice block")
 		return
 	}
-	stage := 0
-	for _, s := range blk.Body.List {
-		txt := strings.ReplaceAll(c.Src(s), " ", "")
-		switch {
-		case stage == 0 && strings.HasPrefix(txt, "r:=&Path{append([]float64{MoveToCmd,end.X,end.Y,MoveToCmd},p.d[i+cmdLen(cmd):]...)}"):
-			stage = 1
-		case stage == 1 && strings.HasPrefix(txt, "p.d=p.d[:i:"):
-			stage = 2
-		case stage == 2 && txt == "p=p.Join(q)":
-			stage = 3
-		case stage == 3 && txt == "i=len(p.d)":
-			stage = 4
-		case stage == 4 && txt == "p=p.Join(r)":
-			stage = 5
-		}
-	}
-	if stage == 5 {
+	n, seq := core.AlphaSeq(c.Norm(p, fd),
+		"$r:=&Path{append([]float64{MoveToCmd,$end.X,$end.Y,MoveToCmd},$p.d[$i+cmdLen($cmd):]...)}",
+		"$p.d=$p.d[:$i:",
+		"$p=$p.Join($q)",
+		"$i=len($p.d)",
+		"$p=$p.Join($r)")
+	if seq {
 		r.OK("E10.replace-shape", key, c.Pos(blk.Pos()), "save remainder; cut record; Join(q); i = len(p.d); Join(remainder)")
 	} else {
-		r.Fail("E10.replace-shape", key, c.Pos(blk.Pos()), fmt.Sprintf("the splice sequence (save remainder r, cut p.d[:i:…], p = p.Join(q), i = len(p.d), p = p.Join(r)) was only matched up to step %d: the replaced record could survive or the cursor could skip commands of the remainder", stage))
+		r.Fail("E10.replace-shape", key, c.Pos(blk.Pos()), fmt.Sprintf("the splice sequence (save remainder r, cut p.d[:i:…], p = p.Join(q), i = len(p.d), p = p.Join(r)) was only matched up to step %d: the replaced record could survive or the cursor could skip commands of the remainder", n))
 	}
 }
 
@@ -645,7 +639,16 @@ func e10Consumers(c *core.Ctx, r *core.Report, p *packages.Package, e *e10) {
 		for _, s := range fd.Body.List {
 			if as, ok := s.(*ast.AssignStmt); ok && len(as.Lhs) == 1 && len(as.Rhs) == 1 {
 				if id, ok := as.Lhs[0].(*ast.Ident); ok && core.ObjOf(info, id) == recv {
-					if strings.ReplaceAll(types.ExprString(as.Rhs[0]), " ", "") == id.Name+".ReplaceArcs()" {
+					rootID := func() *ast.Ident {
+						if call, ok := core.Unparen(as.Rhs[0]).(*ast.CallExpr); ok {
+							if se, ok := call.Fun.(*ast.SelectorExpr); ok {
+								rid, _ := core.Unparen(se.X).(*ast.Ident)
+								return rid
+							}
+						}
+						return nil
+					}()
+					if core.AlphaMatch("$p.ReplaceArcs()", c.Norm(p, as.Rhs[0])) && rootID != nil && core.ObjOf(info, rootID) == recv {
 						replacedAt = as.Pos()
 					} else {
 						replacedAt = token.NoPos
@@ -764,7 +767,7 @@ func e10Consumers(c *core.Ctx, r *core.Report, p *packages.Package, e *e10) {
 			if !ok || types.ExprString(rs.X) != v || len(rs.Body.List) != 1 {
 				return true
 			}
-			if strings.ReplaceAll(c.Src(rs.Body.List[0]), " ", "") == v+"[i]="+v+"[i].Flatten(Tolerance)" {
+			if core.AlphaMatch("$v[$i]=$v[$i].Flatten(Tolerance)", c.Norm(p, rs.Body.List[0])) {
 				loopPos = rs.Pos()
 			}
 			return true
